@@ -939,7 +939,13 @@ func recvFieldOrPassed(p *chk.Prog, f *chk.Fn, typ, name string) func(ast.Expr) 
 // other assignment is `L = append(L, a)` for the element a of a range loop over the collection, that append is
 // dominated by keep(a), the loop has no break, and an iteration ends without the append only when keep(a) is false.
 func filteredList(f *chk.Fn, g *chk.Graph, e ast.Expr, coll func(ast.Expr) bool, keep func(elem func(ast.Expr) bool, positive bool) chk.Guard) bool {
-	return collectedList(f, g, e, coll, keep, nil)
+	return collectedList(f, g, e, coll, func(rs *ast.RangeStmt, pos bool) chk.Guard { return keep(rangeVal(f, rs), pos) }, nil)
+}
+
+// filteredKeys: e is a local list that holds exactly the keys of the collection (a map, or the indexes of a slice) for
+// whose iteration keep holds (keep is given the collecting loop: it may speak about the key and the value).
+func filteredKeys(f *chk.Fn, g *chk.Graph, e ast.Expr, coll func(ast.Expr) bool, keep func(rs *ast.RangeStmt, positive bool) chk.Guard) bool {
+	return collectedList(f, g, e, coll, keep, func(rs *ast.RangeStmt) func(ast.Expr) bool { return rangeKey(f, rs) })
 }
 
 // mappedList: e is a local list that holds proj(element) for every element of the collection, in order (the list a
@@ -948,10 +954,11 @@ func mappedList(f *chk.Fn, g *chk.Graph, e ast.Expr, coll func(ast.Expr) bool, p
 	if rid, isId := ast.Unparen(f.Resolve(e)).(*ast.Ident); isId {
 		e = rid
 	}
-	return collectedList(f, g, e, coll, func(func(ast.Expr) bool, bool) chk.Guard { return chk.NoGuard }, proj)
+	return collectedList(f, g, e, coll, func(*ast.RangeStmt, bool) chk.Guard { return chk.NoGuard },
+		func(rs *ast.RangeStmt) func(ast.Expr) bool { return proj(rangeVal(f, rs)) })
 }
 
-func collectedList(f *chk.Fn, g *chk.Graph, e ast.Expr, coll func(ast.Expr) bool, keep func(elem func(ast.Expr) bool, positive bool) chk.Guard, proj func(elem func(ast.Expr) bool) func(ast.Expr) bool) bool {
+func collectedList(f *chk.Fn, g *chk.Graph, e ast.Expr, coll func(ast.Expr) bool, keep func(rs *ast.RangeStmt, positive bool) chk.Guard, proj func(rs *ast.RangeStmt) func(ast.Expr) bool) bool {
 	id, ok := ast.Unparen(e).(*ast.Ident)
 	if !ok {
 		return false
@@ -960,10 +967,14 @@ func collectedList(f *chk.Fn, g *chk.Graph, e ast.Expr, coll func(ast.Expr) bool
 	if !ok || l.IsField() || l.Pkg() == nil || l.Parent() == l.Pkg().Scope() {
 		return false
 	}
-	// declared in the same iteration as the use
+	// declared in the same iteration as the use, or built completely before the loop that contains the use
 	if outer := f.LoopOf(id); outer != nil {
 		if !(outer.Pos() <= l.Pos() && l.Pos() <= outer.End()) {
-			return false
+			for _, n := range assignsTo(f, l) {
+				if n.End() > outer.Pos() {
+					return false
+				}
+			}
 		}
 	}
 	nApp := 0
@@ -983,10 +994,9 @@ func collectedList(f *chk.Fn, g *chk.Graph, e ast.Expr, coll func(ast.Expr) bool
 		if rs == nil || !(coll(rs.X) || coll(f.Resolve(rs.X))) {
 			return false
 		}
-		a := rangeVal(f, rs)
-		what := a
+		what := rangeVal(f, rs)
 		if proj != nil {
-			what = proj(a)
+			what = proj(rs)
 		}
 		if !f.IsAssignPat("R", "append(R, A)", chk.H("R", f.IsObj(l)), chk.H("A", what))(as) {
 			return false
@@ -995,7 +1005,7 @@ func collectedList(f *chk.Fn, g *chk.Graph, e ast.Expr, coll func(ast.Expr) bool
 		if len(sites) != 1 || loopHasBreak(g, rs) {
 			return false
 		}
-		kp, kn := keep(a, true), keep(a, false)
+		kp, kn := keep(rs, true), keep(rs, false)
 		if !kp.IsNone() && !g.Dominated(sites[0], kp) {
 			return false
 		}
@@ -1327,23 +1337,28 @@ func keyedAccumulatorRule(x *chk.R, p *chk.Prog, pkgs ...string) int {
 					continue
 				}
 				n++
-				okVar := func(e ast.Expr) bool {
-					id, isId := ast.Unparen(e).(*ast.Ident)
-					if !isId {
-						return false
-					}
-					rhs, idx := g.DefOf(id, g.FactSite(id))
-					return rhs != nil && idx == 1 && f.MatchWith("M[K]", rhs, chk.H("M", sameM), chk.H("K", sameK)) != nil
-				}
-				absent := chk.GOr(chk.GBool(false, okVar), g.GPat(true, "M[K] == nil", chk.H("M", sameM), chk.H("K", sameK)),
-					g.GPat(true, "len(M[K]) == 0", chk.H("M", sameM), chk.H("K", sameK)),
-					g.GPat(true, "V == nil", chk.H("V", definedBy(g, "M[K]", chk.H("M", sameM), chk.H("K", sameK)))))
+				absent := chk.GOr(keyAbsent(f, g, sameM, sameK), g.GPat(true, "len(M[K]) == 0", chk.H("M", sameM), chk.H("K", sameK)))
 				x.Check("fresh-entry-only-when-absent:"+f.Name()+":"+types.ExprString(ix.X), s.Pos(), g.Dominated(s, absent), "",
 					"a fresh container is stored under "+types.ExprString(as.Lhs[0])+" although the key may already hold accumulated entries (they are lost; which ones depends on iteration order)")
 			}
 		}
 	}
 	return n
+}
+
+// keyAbsent: "the map holds nothing under the key", however it is asked: the comma-ok result of M[K] is false, M[K] is
+// nil, or the value looked up from M[K] is nil (maps whose values are never nil).
+func keyAbsent(f *chk.Fn, g *chk.Graph, sameM, sameK func(ast.Expr) bool) chk.Guard {
+	okVar := func(e ast.Expr) bool {
+		id, isId := ast.Unparen(e).(*ast.Ident)
+		if !isId {
+			return false
+		}
+		rhs, idx := g.DefOf(id, g.FactSite(id))
+		return rhs != nil && idx == 1 && f.MatchWith("M[K]", rhs, chk.H("M", sameM), chk.H("K", sameK)) != nil
+	}
+	return chk.GOr(chk.GBool(false, okVar), g.GPat(true, "M[K] == nil", chk.H("M", sameM), chk.H("K", sameK)),
+		g.GPat(true, "V == nil", chk.H("V", definedBy(g, "M[K]", chk.H("M", sameM), chk.H("K", sameK)))))
 }
 
 func isFreshContainer(f *chk.Fn, e ast.Expr) bool {
